@@ -412,6 +412,10 @@ func c19Scenario(spec *c19Spec) *Scenario {
 						m.Failf("heartbeat.base", "could not reach SHUTDOWN-PENDING / ESTABLISHED (%s / %s)", getAssociationStateString(m.As[1].getState()), getAssociationStateString(m.As[0].getState()))
 					}
 				}
+				hl := &hbLog{}
+				m.As[0].lock.Lock()
+				m.As[0].log = hl
+				m.As[0].lock.Unlock()
 				m.W.faultsOn = true
 				s0 := m.As[0].SRTT()
 				m.As[0].ActiveHeartbeat()
@@ -441,6 +445,10 @@ func c19Scenario(spec *c19Spec) *Scenario {
 				}
 				if hb == 0 {
 					m.Failf("heartbeat.sent", "ActiveHeartbeat put no HEARTBEAT on the wire")
+				}
+				// one heartbeat, one sample: a duplicated answer is not a second round trip
+				if hl.samples > hb {
+					m.Failf("heartbeat.dup-sample", "%d on-demand heartbeat(s) sent, %d round-trip samples taken from their answers: a duplicated HEARTBEAT-ACK was measured again", hb, hl.samples)
 				}
 				if hback == 0 {
 					m.Failf("heartbeat.answer", "the peer never answered the HEARTBEAT (%d sent)", hb)
@@ -1014,6 +1022,13 @@ func c19EndToEnd(j *Job) {
 type hbLog struct {
 	nopLogger
 	unsolicited int
+	samples     int
+}
+
+func (l *hbLog) Tracef(f string, _ ...any) {
+	if strings.Contains(f, "HB RTT: measured") {
+		l.samples++
+	}
 }
 
 func (l *hbLog) Debugf(f string, _ ...any) {
